@@ -202,7 +202,7 @@ def gen_cases(seed, chunk, n, tier):
 
 
 def run(ctx):
-    n = 900 if ctx.tier == "quick" else 20000
+    n = 5000 if ctx.tier == "quick" else 40000
     stream.run_stream(ctx, "fuse", "harness.props.c05", "gen_cases", n, per_chunk=60,
                       canon_kw=dict(drop_zero=True))
 
